@@ -824,6 +824,10 @@ func (u *UserManager) CheckUser(user string) bool {
 // CheckPassword check if right password with specific user
 func (u *UserManager) CheckPassword(user string, salt, auth []byte) (bool, string) {
 	for _, password := range u.users[user] {
+		if isHashedPassword(password) {
+			// the stored hash is not the password: whoever reads it must not be able to log in with it
+			continue
+		}
 		checkAuth := mysql.CalcPassword(salt, []byte(password))
 		if bytes.Equal(auth, checkAuth) {
 			return true, password
@@ -835,7 +839,7 @@ func (u *UserManager) CheckPassword(user string, salt, auth []byte) (bool, strin
 // CheckHashPassword check encrypt password with specific user
 func (u *UserManager) CheckHashPassword(user string, salt, auth []byte) (bool, string) {
 	for _, password := range u.users[user] {
-		if strings.HasPrefix(password, "*") && len(password) == 41 {
+		if isHashedPassword(password) {
 			if mysql.CheckHashPassword(auth, salt, []byte(password)[1:]) {
 				return true, password
 			}
@@ -847,12 +851,20 @@ func (u *UserManager) CheckHashPassword(user string, salt, auth []byte) (bool, s
 // CheckPassword check if right password with specific user
 func (u *UserManager) CheckSha2Password(user string, salt, auth []byte) (bool, string) {
 	for _, password := range u.users[user] {
+		if isHashedPassword(password) {
+			continue
+		}
 		checkAuth := mysql.CalcCachingSha2Password(salt, password)
 		if bytes.Equal(auth, checkAuth) {
 			return true, password
 		}
 	}
 	return false, ""
+}
+
+// isHashedPassword tells whether a configured password is stored as '*' + hex(SHA1(SHA1(password)))
+func isHashedPassword(password string) bool {
+	return strings.HasPrefix(password, "*") && len(password) == 41
 }
 
 // GetNamespaceByUser return namespace by user
